@@ -76,6 +76,7 @@ type Task struct {
 	Cancel context.CancelFunc
 
 	aborted  bool
+	Lagged   bool  // was runnable while the scheduler let virtual time pass (F-lag)
 	sleeping int32 // inside a harness-level sleep (virtual time)
 	Panic    any
 }
@@ -130,6 +131,10 @@ type Sched struct {
 	// that do not depend on exact instants (C02).
 	LagPct int
 	Lags   int
+	// LagStrict: for oracles on exact instants (C13). Lag never delays goroutines spawned by the code
+	// under test, and every task that was runnable while time was allowed to pass is marked Lagged
+	// (its own lateness is the scheduler's doing and must not be judged).
+	LagStrict bool
 
 	Switches    int
 	LockWaits   int
@@ -514,6 +519,11 @@ func (s *Sched) lagSafe() bool {
 		if t.parked() && strings.HasSuffix(t.site, "#select") {
 			return false
 		}
+		// a goroutine spawned by the code under test (e.g. a subscription helper) is part of some caller's
+		// operation: delaying it would delay that caller. Waiting for a busy lock is not the scheduler's doing.
+		if s.LagStrict && t.adopted && t.parked() && t.kind != kLockWait {
+			return false
+		}
 	}
 	return true
 }
@@ -727,6 +737,11 @@ func (s *Sched) loop() {
 		}
 		if s.LagPct > 0 && s.anySleeping() && s.lagSafe() && s.T.Intn(100, "lag?") >= 100-s.LagPct {
 			s.Lags++
+			for _, lt := range s.tasks {
+				if lt.parked() {
+					lt.Lagged = true // also lock-waiters: they wait for somebody who is being delayed
+				}
+			}
 			if s.idle() {
 				continue
 			}
